@@ -43,7 +43,7 @@ def _real(cls, nx):
     return rr.SinglePhaseReservoir(nx, 1000.0, 8000.0, _real_fluid())
 
 
-def replay_shift(model, cls="SinglePhaseReservoir", nx=4, nt=3):
+def replay_shift(model, cls="SinglePhaseReservoir", nx=4, nt=3, tseries=False):
     import numpy as np
     t = [float(model.get("t0") or 0.0)]
     for k in range(1, nt):
@@ -52,8 +52,17 @@ def replay_shift(model, cls="SinglePhaseReservoir", nx=4, nt=3):
     s = float(model.get("shift") or 3.5)
     a, b = _real(cls, nx), _real(cls, nx)
     a.simulate(t)
-    b.simulate(t + s)
-    ra, rb = a.recovery_factor(), b.recovery_factor()
+    if tseries:
+        import pandas as pd
+        try:
+            b.simulate(pd.Series(t + s))          # the shifted grid as a column of a production table
+        except Exception as ex:  # noqa: BLE001
+            return True, {"what": f"{cls}.simulate raised {ex!r} for a time grid passed as a pandas Series", "inputs": {"t": t.tolist()}}
+    else:
+        b.simulate(t + s)
+    ra, rb = np.asarray(a.recovery_factor(), float), np.asarray(b.recovery_factor(), float)
+    if not np.all(np.isfinite(np.asarray(b.pseudopressure, float))):
+        return True, {"what": f"{cls}: the run on the shifted grid{' (a pandas Series)' if tseries else ''} holds non-finite values", "inputs": {"t": t.tolist()}}
     da = float(np.abs(np.asarray(a.pseudopressure) - np.asarray(b.pseudopressure)).max())
     dr = float(np.abs(ra - rb).max())
     bad = da > 1e-7 or dr > 1e-7 * (1 + abs(ra).max())
@@ -135,12 +144,13 @@ def replay_interp(model, cls="SinglePhaseReservoir", nx=4, nt=3, rerun=None):
 
 # ------------------------------------------------------------------ jobs
 
-def job_shift(job, cls, nx, nt):
+def job_shift(job, cls, nx, nt, tseries=False):
     mod = load_reservoir()
     job.encoded(mod, f"{cls}.simulate", "IdealReservoir.recovery_factor")
     job.stub("linear solve: ideal, memoised on the syntactic system (deterministic routine)", "fluid*: contract stub")
     job.bound(shift_nx=nx, shift_nt=nt)
-    tag = f"{cls}[nx={nx},nt={nt}]"
+    tag = f"{cls}[nx={nx},nt={nt}{',shifted grid a pandas Series' if tseries else ''}]"
+    rp = (replay_shift, {"cls": cls, "nx": nx, "nt": nt, "tseries": tseries})
 
     def run():
         memo = MemoSolve()
@@ -152,16 +162,22 @@ def job_shift(job, cls, nx, nt):
         a = _mk(mod, cls, nx, fluid)
         a.simulate(t)
         b = _mk(mod, cls, nx, fluid)
-        b.simulate(SymArray([v + s for v in t.d], "f8"))
+        if tseries:
+            from ..shims.pd_shim import SymSeries
+            b.simulate(SymSeries([v + s for v in t.d], "f8", list(range(nt))))
+        else:
+            b.simulate(SymArray([v + s for v in t.d], "f8"))
         return rows_of(a), rows_of(b), a.recovery_factor().d, b.recovery_factor().d
 
     for k, pr in enumerate(paths(job, run, [], max_paths=16)):
         if pr.exc is not None:
+            if tseries:
+                job.prove(f"{tag}/raises {type(pr.exc).__name__}[path{k}]", pr.pc, bound=f"nx={nx}, nt={nt}", replay=rp, note=repr(pr.exc)[:100])
+                continue
             job.errors.append(f"{tag} shift raised {pr.exc!r}")
             continue
         ra, rb, fa, fb = pr.value
         flat = lambda rows: [v for r in rows for v in r]
-        rp = (replay_shift, {"cls": cls, "nx": nx, "nt": nt})
         job.prove(f"{tag}/shifted run has the same pseudopressure field[path{k}]", pr.pc + [_differs(flat(ra), flat(rb))], bound=f"nx={nx}, nt={nt}, any shift", replay=rp)
         job.prove(f"{tag}/shifted run has the same recovery[path{k}]", pr.pc + [_differs(fa, fb)], bound=f"nx={nx}, nt={nt}, any shift", replay=rp)
         job.prove(f"{tag}/reach[path{k}]", pr.pc, expect="sat", elim=True)
@@ -307,6 +323,7 @@ def jobs(tier):
     for cls in ("SinglePhaseReservoir", "IdealReservoir"):
         for nx, nt in cfg:
             out.append((f"shift-{cls[:6]}-{nx}-{nt}", lambda j, c=cls, a=nx, b=nt: job_shift(j, c, a, b)))
+        out.append((f"shift-series-{cls[:6]}-3-3", lambda j, c=cls: job_shift(j, c, 3, 3, True)))
         out.append((f"before-{cls[:6]}", lambda j, c=cls: job_before(j, c)))
         if cls != "IdealReservoir":
             out.append((f"after-rejected-simulate-{cls[:6]}", lambda j, c=cls: job_before(j, c, True)))
